@@ -5,7 +5,7 @@ import random
 
 import vlib
 
-MODEL_VO = ['Cif/Buf.vo', 'Cif/Lex.vo']
+MODEL_VO = ['Cif/Buf.vo', 'Cif/Lex.vo', 'Cif/JsonNum.vo']
 
 
 def gen_tables():
